@@ -46,6 +46,35 @@ def run(ctx: Ctx) -> None:
                 res.append((seen_fields, out))
         return names, res
 
+    # ---------------------------------------------------------------- R17.9
+    # A text leaf (a field annotated `str`: a name, the words of a fundamental type, a class key) is the spelling the
+    # parser recorded; parsing it back gives that spelling again only if it is written out as it is.  In the format
+    # methods a str field is never the receiver of a transforming string method and never indexed or sliced.
+    ctx.rule("R17.9", "text leaves are written out verbatim: a str field is not transformed (split / sorted / replaced / sliced) on its way into the formatted text", minimum=3)
+    _TRANSFORM = {"split", "rsplit", "replace", "lower", "upper", "strip", "lstrip", "rstrip", "title", "capitalize", "casefold", "swapcase", "translate", "removeprefix",
+                  "removesuffix", "expandtabs", "partition", "rpartition", "splitlines", "center", "ljust", "rjust", "zfill", "format", "join", "encode"}
+    for cname, cnode in types.classes():
+        strf = {st.target.id for st in cnode.body if isinstance(st, ast.AnnAssign) and isinstance(st.target, ast.Name) and norm(st.annotation) in ("str", "typing.Optional[str]", "Optional[str]")}
+        if not strf:
+            continue
+        for m_ in cnode.body:
+            if not (isinstance(m_, ast.FunctionDef) and m_.name in ("format", "format_decl")):
+                continue
+            for f_ in sorted(strf):
+                bad = None
+                reads = 0
+                for x in ast.walk(m_):
+                    if isinstance(x, ast.Attribute) and isinstance(x.value, ast.Name) and x.value.id == "self" and x.attr == f_:
+                        reads += 1
+                        par = types.parent.get(x)
+                        if isinstance(par, ast.Attribute) and par.value is x and par.attr in _TRANSFORM and isinstance(types.parent.get(par), ast.Call):
+                            bad = par
+                        elif isinstance(par, ast.Subscript) and par.value is x:
+                            bad = par
+                if reads:
+                    ctx.ob("R17.9", f"types:{cname}.{m_.name}|text field {f_}", bad is None,
+                           msg=f"`{short(bad, 50) if bad is not None else ''}`: the recorded spelling is transformed before it is written, so the text parses back to a different {cname} (e.g. 'long unsigned int' rendered as 'unsigned long int')", node=bad or m_, mod=types, nontrivial=False)
+
     cache: Dict[Tuple[str, str], Any] = {}
     total = 0
     for cls in fm.classes:
